@@ -46,6 +46,9 @@ pub enum MKind {
     Strong,
     OptStrong,
     Weak,
+    /// `ArcSwapAny<Option<Weak<T>>>` (empty = `None`; `Some(Weak::new())` is never stored, it is
+    /// documented to read back as `None`)
+    OptWeak,
 }
 
 #[derive(Clone, Copy, Debug, PartialEq, Eq, Serialize, Deserialize)]
@@ -86,7 +89,7 @@ pub struct MCase {
 }
 
 pub fn case_strategy() -> impl Strategy<Value = MCase> {
-    let kind = prop_oneof![3 => Just(MKind::Strong), 2 => Just(MKind::OptStrong), 4 => Just(MKind::Weak)];
+    let kind = prop_oneof![3 => Just(MKind::Strong), 2 => Just(MKind::OptStrong), 3 => Just(MKind::Weak), 2 => Just(MKind::OptWeak)];
     let val = || prop_oneof![6 => (0u8..3).prop_map(MVal::Pool), 2 => Just(MVal::Fresh), 1 => Just(MVal::Empty)];
     let op = prop_oneof![
         5 => (0u8..4).prop_map(MOp::Load),
@@ -177,15 +180,17 @@ impl Fam for RcFam {
     }
 }
 
-enum Cont<F: Fam, St: AsStrategy<F::S> + AsStrategy<Option<F::S>> + AsStrategy<F::W>> {
+enum Cont<F: Fam, St: AsStrategy<F::S> + AsStrategy<Option<F::S>> + AsStrategy<F::W> + AsStrategy<Option<F::W>>> {
     S(ArcSwapAny<F::S, St>),
     O(ArcSwapAny<Option<F::S>, St>),
     W(ArcSwapAny<F::W, St>),
+    OW(ArcSwapAny<Option<F::W>, St>),
 }
-enum G<F: Fam, St: AsStrategy<F::S> + AsStrategy<Option<F::S>> + AsStrategy<F::W>> {
+enum G<F: Fam, St: AsStrategy<F::S> + AsStrategy<Option<F::S>> + AsStrategy<F::W> + AsStrategy<Option<F::W>>> {
     S(Guard<F::S, St>),
     O(Guard<Option<F::S>, St>),
     W(Guard<F::W, St>),
+    OW(Guard<Option<F::W>, St>),
 }
 enum H<F: Fam> {
     S(F::S),
@@ -222,7 +227,7 @@ struct Alloc<F: Fam> {
     wguards: usize,
 }
 
-struct GuardRec<F: Fam, St: AsStrategy<F::S> + AsStrategy<Option<F::S>> + AsStrategy<F::W>> {
+struct GuardRec<F: Fam, St: AsStrategy<F::S> + AsStrategy<Option<F::S>> + AsStrategy<F::W> + AsStrategy<Option<F::W>>> {
     g: G<F, St>,
     alloc: Option<usize>,
     strong: bool,
@@ -236,7 +241,7 @@ struct GuardRec<F: Fam, St: AsStrategy<F::S> + AsStrategy<Option<F::S>> + AsStra
     may_have_slot: bool,
 }
 
-struct World<F: Fam, St: AsStrategy<F::S> + AsStrategy<Option<F::S>> + AsStrategy<F::W>> {
+struct World<F: Fam, St: AsStrategy<F::S> + AsStrategy<Option<F::S>> + AsStrategy<F::W> + AsStrategy<Option<F::W>>> {
     allocs: Vec<Alloc<F>>,
     conts: Vec<Cont<F, St>>,
     cval: Vec<Option<usize>>,
@@ -262,7 +267,7 @@ thread_local! {
 
 impl<F: Fam, St> World<F, St>
 where
-    St: AsStrategy<F::S> + AsStrategy<Option<F::S>> + AsStrategy<F::W> + CaS<F::S> + CaS<Option<F::S>> + CaS<F::W> + Default,
+    St: AsStrategy<F::S> + AsStrategy<Option<F::S>> + AsStrategy<F::W> + AsStrategy<Option<F::W>> + CaS<F::S> + CaS<Option<F::S>> + CaS<F::W> + CaS<Option<F::W>> + Default,
 {
     fn new_alloc(&mut self) -> usize {
         let id = NEXT_ID.with(|n| {
@@ -393,13 +398,14 @@ where
     }
 
     fn class_strong(kind: MKind) -> bool {
-        kind != MKind::Weak
+        !matches!(kind, MKind::Weak | MKind::OptWeak)
     }
     fn kind_of(&self, c: usize) -> MKind {
         match self.conts[c] {
             Cont::S(_) => MKind::Strong,
             Cont::O(_) => MKind::OptStrong,
             Cont::W(_) => MKind::Weak,
+            Cont::OW(_) => MKind::OptWeak,
         }
     }
 
@@ -549,8 +555,9 @@ where
             G::S(g) => <F::S as RefCnt>::as_ptr(g) as *const Tr,
             G::O(g) => <Option<F::S> as RefCnt>::as_ptr(g) as *const Tr,
             G::W(g) => <F::W as RefCnt>::as_ptr(g) as *const Tr,
+            G::OW(g) => <Option<F::W> as RefCnt>::as_ptr(g) as *const Tr,
         };
-        let strong = !matches!(g, G::W(_));
+        let strong = !matches!(g, G::W(_) | G::OW(_));
         let got = match self.ident_of_ptr(p) {
             Ok(x) => x,
             Err(m) => {
@@ -595,6 +602,7 @@ where
             Cont::S(x) => G::S(x.load()),
             Cont::O(x) => G::O(x.load()),
             Cont::W(x) => G::W(x.load()),
+            Cont::OW(x) => G::OW(x.load()),
         };
         let want = self.cval[c];
         self.push_guard(g, c, "load", &before, false)?;
@@ -687,6 +695,25 @@ where
                     return Err("a guard loaded from an empty container is Some".into());
                 }
             }
+            (G::OW(g), a) => {
+                let up = match &**g {
+                    Some(w) => F::upgrade(w),
+                    None => None,
+                };
+                if a.is_some() != g.is_some() {
+                    return Err(format!("an Option<Weak> guard is {} but the model holds {:?}", if g.is_some() { "Some" } else { "None" }, a.map(|a| self.allocs[a].id)));
+                }
+                let want = a.filter(|&a| self.alive_model(a));
+                match (&up, want) {
+                    (Some(s), Some(a)) if s.id == self.allocs[a].id => {}
+                    (None, None) => {
+                        if a.is_some() {
+                            self.stats.weak_target_died += 1;
+                        }
+                    }
+                    _ => return Err(format!("an Option<Weak> guard upgrades to {:?}, the model says {:?}", up.as_ref().map(|s| s.id), want.map(|a| self.allocs[a].id))),
+                }
+            }
             (G::W(g), a) => {
                 let up = F::upgrade(g);
                 let want = a.filter(|&a| self.alive_model(a));
@@ -754,6 +781,15 @@ where
                     x.store(n_w);
                 }
             }
+            Cont::OW(x) => {
+                let n = if a.is_some() { Some(n_w) } else { None };
+                if swap {
+                    let o = x.swap(n);
+                    out = Some((<Option<F::W> as RefCnt>::as_ptr(&o) as *const Tr, o.map(H::W)));
+                } else {
+                    x.store(n);
+                }
+            }
         }
         self.cval[c] = a;
         self.release_fresh(v, a);
@@ -812,6 +848,7 @@ where
             Cont::S(x) => x.store(n_s.unwrap()),
             Cont::O(x) => x.store(n_s),
             Cont::W(x) => x.store(n_w),
+            Cont::OW(x) => x.store(if a.is_some() { Some(n_w) } else { None }),
         }
         self.cval[c] = a;
         self.own(old, strong, -1);
@@ -852,6 +889,10 @@ where
             Cont::S(x) => G::S(x.compare_and_swap(cur_s.as_ref().unwrap(), n_s.unwrap())),
             Cont::O(x) => G::O(x.compare_and_swap(&cur_s, n_s)),
             Cont::W(x) => G::W(x.compare_and_swap(&cur_w, n_w)),
+            Cont::OW(x) => {
+                let cur_ow = if cur_a.is_some() { Some(cur_w.clone()) } else { None };
+                G::OW(x.compare_and_swap(&cur_ow, if a.is_some() { Some(n_w) } else { None }))
+            }
         };
         drop(cur_s);
         drop(cur_w);
@@ -896,6 +937,10 @@ where
                 let p = <F::W as RefCnt>::as_ptr(&v) as *const Tr;
                 (p, if p.is_null() { None } else { Some(H::W(v)) })
             }
+            Cont::OW(x) => {
+                let v = x.load_full();
+                (<Option<F::W> as RefCnt>::as_ptr(&v) as *const Tr, v.map(H::W))
+            }
         };
         let id = match self.ident_of_ptr(p) {
             Ok(i) => i,
@@ -927,7 +972,7 @@ where
 
 fn run_with<F: Fam, St>(case: &MCase) -> Result<MStats, String>
 where
-    St: AsStrategy<F::S> + AsStrategy<Option<F::S>> + AsStrategy<F::W> + CaS<F::S> + CaS<Option<F::S>> + CaS<F::W> + Default,
+    St: AsStrategy<F::S> + AsStrategy<Option<F::S>> + AsStrategy<F::W> + AsStrategy<Option<F::W>> + CaS<F::S> + CaS<Option<F::S>> + CaS<F::W> + CaS<Option<F::W>> + Default,
 {
     let mut w: World<F, St> = World { allocs: Vec::new(), conts: Vec::new(), cval: Vec::new(), guards: Vec::new(), handles: Vec::new(), next_id: 0, base_id: 0, stats: MStats::default(), base_slots: RefCell::new(HashMap::new()) };
     for (n, sl) in raw_snapshot() {
@@ -949,6 +994,7 @@ where
         let c = match k {
             MKind::Strong => Cont::S(ArcSwapAny::with_strategy(w.strong_of(a.unwrap()), St::default())),
             MKind::OptStrong => Cont::O(ArcSwapAny::with_strategy(a.map(|a| w.strong_of(a)), St::default())),
+            MKind::OptWeak => Cont::OW(ArcSwapAny::with_strategy(a.map(|a| F::downgrade(&w.strong_of(a))), St::default())),
             MKind::Weak => Cont::W(ArcSwapAny::with_strategy(
                 match a {
                     Some(a) => F::downgrade(&w.strong_of(a)),
@@ -963,8 +1009,8 @@ where
     }
     // an allocation that sits in containers of both classes
     for a in 0..w.allocs.len() {
-        let s = (0..w.conts.len()).any(|c| w.cval[c] == Some(a) && w.kind_of(c) != MKind::Weak);
-        let k = (0..w.conts.len()).any(|c| w.cval[c] == Some(a) && w.kind_of(c) == MKind::Weak);
+        let s = (0..w.conts.len()).any(|c| w.cval[c] == Some(a) && World::<F, St>::class_strong(w.kind_of(c)));
+        let k = (0..w.conts.len()).any(|c| w.cval[c] == Some(a) && !World::<F, St>::class_strong(w.kind_of(c)));
         if s && k {
             w.stats.shared_across_classes += 1;
         }
@@ -1050,7 +1096,7 @@ where
     }
     while let Some(c) = w.conts.pop() {
         let a = w.cval.pop().unwrap();
-        let strong = !matches!(c, Cont::W(_));
+        let strong = !matches!(c, Cont::W(_) | Cont::OW(_));
         w.own(a, strong, -1);
         drop(c);
         if !marked {
